@@ -317,3 +317,25 @@ Proof.
   unfold rfc_stream_reading_with. destruct (frame_outcome sv (hist_flat h) Finished) as [toks tl].
   apply read_tokens_merged.
 Qed.
+
+(* ---------- the split point is irrelevant: the receive half starts from exactly the whole stream's receive state
+   (unconsumed bytes, end-of-stream flag, decoder memo, DATA payload still owed, trailers already taken off the wire) ---------- *)
+From H3V Require Import Gen.GenSplit.
+Lemma c03_split_id s : c03_split s = s.
+Proof.
+  unfold c03_split.
+  change split_keeps_buf with true. change split_keeps_eos with true. change split_keeps_decoder with true.
+  change split_keeps_remaining with true. change split_keeps_trailers with true.
+  destruct s as [[[b e m rm q] t rst] ph]. reflexivity.
+Qed.
+
+Theorem split_point_irrelevant r h : forall s,
+  c03_run_split r h s = rx_run c03_state c03_arrive c03_fin (c03_poll r) (without_splits h) s.
+Proof.
+  induction h as [|[e|] h IH]; intros s; [reflexivity| |].
+  - cbn [c03_run_split without_splits]. destruct e; cbn [rx_run].
+    + rewrite IH. destruct (rx_run _ _ _ _ (without_splits h) (c03_arrive chunk s)). reflexivity.
+    + rewrite IH. destruct (rx_run _ _ _ _ (without_splits h) (c03_fin s)). reflexivity.
+    + destruct (c03_poll r s) as [o s1]. rewrite IH. cbn [app]. rewrite app_nil_r. reflexivity.
+  - cbn [c03_run_split without_splits]. rewrite c03_split_id. apply IH.
+Qed.
